@@ -107,6 +107,23 @@ def nextAttr (b : List Nat) : Option (List Nat × List Nat × Nat) :=
       let endOff := lead + namelen + 2 + q + 1
       some (b1.take namelen, val, endOff + ((b.drop endOff).takeWhile isBlank).length)
 
+/-! ### the attribute list of a tag: what `new_prop` writes and how the importer's `while (next_attr(...) >= 0)` loop reads it -/
+
+/-- `hwloc__nolibxml_export_new_prop`: ` name="escaped value"` -/
+def renderAttr (a : List Nat × List Nat) : List Nat := 32 :: a.1 ++ 61 :: 34 :: escape a.2 ++ [34]
+/-- the attributes of one tag, as they stand in the attribute buffer (find_child replaced the closing `>` or `/>` by NUL) -/
+def renderAttrs : List (List Nat × List Nat) → List Nat
+  | [] => []
+  | a :: l => renderAttr a ++ renderAttrs l
+
+/-- the importer's loop over `next_attr` until it fails -/
+def scanAttrs : Nat → List Nat → List (List Nat × List Nat)
+  | 0, _ => []
+  | fuel + 1, b =>
+    match nextAttr b with
+    | none => []
+    | some (n, v, off) => (n, v) :: scanAttrs fuel (b.drop off)
+
 /-! ### strings that reach the XML file -/
 
 /-- `HWLOC_XML_CHAR_VALID` (with `char` signed: bytes ≥ 128 are invalid) -/
@@ -206,6 +223,12 @@ def treeObs (d : Dump) : List TreeObs × Option Nat × Option Nat × Int := (d.o
 
 def TreeSetsEquiv (a b : Dump) : Prop := treeObs a = treeObs b
 instance (a b : Dump) : Decidable (TreeSetsEquiv a b) := inferInstanceAs (Decidable (treeObs a = treeObs b))
+
+/-- backward-compatibility rule of the importer for files of format version ≤ 2 (hwloc 2.0 had no Die type): a Group whose
+    subtype is "Die" or whose kind is HWLOC_GROUP_KIND_INTEL_DIE (104) is loaded as a Die object -/
+def v2DieRuleObj (o : Obj) : Obj :=
+  if o.type = tGROUP ∧ (o.subtype = some "Die" ∨ o.attrs[1]? = some 104) then { o with type := tDIE } else o
+def v2DieRule (d : Dump) : Dump := { d with objs := d.objs.map v2DieRuleObj }
 
 /-- strings of a dump are byte strings decoded one char per byte (Driver.Topo.hexStr) -/
 def sanitizeStr (s : String) : String := String.ofList (s.toList.filter (fun c => xmlCharValid c.toNat))
